@@ -440,6 +440,29 @@ func validateLayout(dir string, ignore map[string]bool) (bool, [][2]string) {
 	return all, bad
 }
 
+// indexEntries renders the manifests of index.json as a sorted list of "node.extra.refname"
+// (what else a digest-only entry carries depends on map iteration orders in GC: printed as *).
+func (r *runner) indexEntries() string {
+	data, err := os.ReadFile(filepath.Join(r.dir, "index.json"))
+	if err != nil {
+		return "!read"
+	}
+	var idx ocispec.Index
+	if err := json.Unmarshal(data, &idx); err != nil {
+		return "!parse"
+	}
+	var es []string
+	for _, m := range idx.Manifests {
+		kx, ann := r.w.classify(m)
+		if ann == "-" {
+			kx = strings.SplitN(kx, ".", 2)[0] + ".*"
+		}
+		es = append(es, kx+"."+ann)
+	}
+	sort.Strings(es)
+	return strings.Join(es, ",")
+}
+
 // ---------- tar of a layout directory ----------
 
 // writeTar archives the layout directory in one of several styles a tar of an image layout
@@ -480,13 +503,16 @@ func writeTarTool(dir, out string, style int) error {
 		// bsdtar finds holes with lseek: archive a copy whose zero runs are real holes
 		src = out + ".copy"
 		os.RemoveAll(src)
-		if o, err := exec.Command("cp", "-a", "--sparse=always", dir, src).CombinedOutput(); err != nil {
+		if o, err := exec.CommandContext(ctx, "cp", "-a", "--sparse=always", dir, src).CombinedOutput(); err != nil {
 			return fmt.Errorf("cp --sparse: %v %s", err, o)
 		}
 		defer os.RemoveAll(src)
 	}
 	args := append(append([]string{}, a[1:]...), "-cf", out, "-C", src, "--exclude=./ingest", ".")
-	cmd := exec.Command(a[0], args...)
+	// a wedged tool must not wedge the check: killed after two minutes (the run then fails)
+	tctx, cancel := context.WithTimeout(ctx, 2*time.Minute)
+	defer cancel()
+	cmd := exec.CommandContext(tctx, a[0], args...)
 	cmd.Env = append(os.Environ(), "LC_ALL=C")
 	if o, err := cmd.CombinedOutput(); err != nil {
 		return fmt.Errorf("%s %v: %v %s", a[0], args, err, o)
@@ -977,7 +1003,7 @@ func (r *runner) checkpoint() string {
 	if all {
 		v = "v1"
 	}
-	return "C[" + strings.Join(parts, "|") + "|" + v + "|x:" + strings.Join(xs, ",") + "]"
+	return "C[" + strings.Join(parts, "|") + "|" + v + "|x:" + strings.Join(xs, ",") + "|i:" + r.indexEntries() + "]"
 }
 
 // ---------- generator ----------
@@ -1558,7 +1584,7 @@ func main() {
 		replay(run.Replay)
 		return
 	}
-	n := run.Scale(1200, 8000)
+	n := run.Scale(1000, 8000)
 	for i := 0; i < n; i++ {
 		generateHistory(run.Seed, i, run.Thorough())
 	}
